@@ -387,6 +387,7 @@ func (l *Linter) LintFiles(filepaths []string, project *Project) ([]*Error, erro
 	if err := eg.Wait(); err != nil {
 		return nil, err
 	}
+	verifPoint("egWait", nil)
 
 	// Ensure that all processes finish. `proc.wait()` must be called after `eg.Wait()`.
 	// Calling `WaitGroup.Add` after `WaitGroup.Wait` can cause a race condition (specifically when
